@@ -1,4 +1,4 @@
-import GB.C13.Proofs
+import GB.C13.Proofs2
 import GB.Generated.Facts
 import GB.C09.Props
 /-
@@ -218,12 +218,10 @@ theorem C13_ws_wrong_type_1003 (cfg : Cfg) (s : St) (h : GB.LTS.Reachable (step 
   · rw [closeFrame_reason]; rfl
   · rw [closeFrame_reason]
     simp only [websocketError]
-    apply closeReason_keeps_prefix _ _ (reasonPrefix_short 3 (by decide))
-    intro hlen
-    exfalso
-    have hshort : ∀ eb : Bool, (reasonPrefix 3 ++ (if eb then msgExpectedBinary else msgExpectedText)).length ≤ 123 := by decide
-    have := hshort cfg.expectBinary
-    omega
+    have hfix : ∀ eb : Bool, closeReasonWhole (reasonPrefix 3 ++ (if eb then msgExpectedBinary else msgExpectedText)) =
+        reasonPrefix 3 ++ (if eb then msgExpectedBinary else msgExpectedText) := by decide
+    rw [hfix]
+    exact List.prefix_append _ _
 
 /-- The same for a payload the request transcoder rejects: delivered = everything before it. -/
 theorem C13_ws_in_refused_exact (cfg : Cfg) (s : St) (h : GB.LTS.Reachable (step cfg) init s)
@@ -254,19 +252,69 @@ theorem C13_ws_out (binary : Bool) (ps : List Bytes) :
 /-- A clean end of the call closes the socket with 1000 and an empty reason. -/
 theorem C13_close_clean : closeFrame .ok = (1000, []) := by decide
 
-/-- An error closes with a non-1000 code and a reason that starts with `code <gRPC code>: `, is at
-    most 123 bytes, is a prefix of the full reason and is never cut inside a UTF-8 sequence.
-    `hstart` holds for every valid-UTF-8 status message (`closeReason` first applies `strings.ToValidUTF8`). -/
-theorem C13_close_error (c : Nat) (m : Bytes) (hc : c ≤ 16)
-    (hstart : 123 < (reasonPrefix c ++ m).length →
-      ∃ j b, 25 ≤ j ∧ j ≤ 123 ∧ (reasonPrefix c ++ m)[j]? = some b ∧ runeStart b = true) :
+/-- An error closes with a non-1000 code and a reason that — for EVERY gRPC code (a uint32: the 17 named ones
+    and `Code(n)`) and EVERY status message, valid UTF-8 or not — starts with `code <gRPC code>: `, is at most
+    123 bytes, IS VALID UTF-8 (so the client reports code and reason instead of failing the connection), is a
+    prefix of the sanitised full reason `strings.ToValidUTF8(reason, "\uFFFD")`, and loses at most 3 bytes to the
+    rune-boundary back-off. No hypothesis on the message is left (round 5; formerly `hstart`). -/
+theorem C13_close_error (c : Nat) (m : Bytes) (hc : c < 2 ^ 32) :
     (closeFrame (.status c m)).1 = 1001 ∧
     reasonPrefix c <+: (closeFrame (.status c m)).2 ∧
     (closeFrame (.status c m)).2.length ≤ 123 ∧
-    (closeFrame (.status c m)).2 <+: reasonPrefix c ++ m := by
+    ValidUTF8 (closeFrame (.status c m)).2 = true ∧
+    (closeFrame (.status c m)).2 <+: toValidUTF8 (reasonPrefix c ++ m) ∧
+    (closeFrame (.status c m)).2 <+: reasonPrefix c ++ toValidUTF8 m ∧
+    (123 < (toValidUTF8 (reasonPrefix c ++ m)).length → 120 ≤ (closeFrame (.status c m)).2.length) := by
   rw [closeFrame_reason]
   simp only [websocketError]
-  exact ⟨trivial, closeReason_keeps_prefix _ _ (reasonPrefix_short c hc) hstart, closeReason_length _, closeReason_prefix _⟩
+  have hv := toValidUTF8_valid (reasonPrefix c ++ m)
+  have hpre : reasonPrefix c <+: toValidUTF8 (reasonPrefix c ++ m) := by
+    rw [toValidUTF8_ascii_prefix _ _ (reasonPrefix_ascii c hc)]; exact List.prefix_append _ _
+  have hl := reasonPrefix_len c hc
+  refine ⟨trivial, closeReason_keeps_prefix_valid _ _ (by omega) hpre hv, closeReasonWhole_length _,
+    closeReason_valid _ hv, closeReason_prefix _, ?_, closeReason_loses_le3 _ hv⟩
+  rw [← toValidUTF8_ascii_prefix _ _ (reasonPrefix_ascii c hc)]
+  exact closeReason_prefix _
+
+/-- `codes.Code.String()` of a code without a name: `Code(<decimal>)` — the prefix the close reason of such a
+    status starts with (e.g. `code Code(17): `, `code Code(4294967295): `). -/
+theorem C13_close_unknown_code_prefix :
+    reasonPrefix 17 = [99, 111, 100, 101, 32, 67, 111, 100, 101, 40, 49, 55, 41, 58, 32] ∧
+    reasonPrefix 4294967295 = [99, 111, 100, 101, 32, 67, 111, 100, 101, 40, 52, 50, 57, 52, 57, 54, 55, 50, 57, 53, 41, 58, 32] ∧
+    (∀ c, c < 2 ^ 32 → (reasonPrefix c).length ≤ 25 ∧ ∀ x ∈ reasonPrefix c, x.toNat < 0x80) :=
+  ⟨by decide, by decide, fun c hc => ⟨reasonPrefix_len c hc, reasonPrefix_ascii c hc⟩⟩
+
+/-- `strings.ToValidUTF8`: the result is valid UTF-8 for every input. -/
+theorem C13_toValidUTF8_valid (s : Bytes) : ValidUTF8 (toValidUTF8 s) = true := toValidUTF8_valid s
+
+/-- The cut on valid UTF-8 (what `closeReasonWhole` does after sanitising): the result is valid, a prefix, at most
+    123 bytes, and when something is cut at least 120 bytes remain; the cut is at 0 or right before a byte
+    that starts a rune — never inside a rune. Valid UTF-8 never has four continuation bytes in a row, which
+    is what bounds the back-off loop. -/
+theorem C13_close_cut_valid (v : Bytes) (hv : ValidUTF8 v = true) :
+    ValidUTF8 (closeReason v) = true ∧ closeReason v <+: v ∧ (closeReason v).length ≤ 123 ∧
+    (123 < v.length → 120 ≤ (closeReason v).length) :=
+  ⟨closeReason_valid v hv, closeReason_prefix v, closeReason_length v, closeReason_loses_le3 v hv⟩
+
+/-- What `ValidUTF8` rejects, as Go's `utf8.Valid` does: overlong forms, surrogates, code points above
+    U+10FFFF, stray continuation bytes, truncated runes; and accepts the boundary code points. -/
+theorem C13_validUTF8_boundaries :
+    ValidUTF8 [0xC0, 0x80] = false ∧ ValidUTF8 [0xC1, 0xBF] = false ∧ ValidUTF8 [0xE0, 0x9F, 0xBF] = false ∧
+    ValidUTF8 [0xF0, 0x8F, 0xBF, 0xBF] = false ∧ ValidUTF8 [0xED, 0xA0, 0x80] = false ∧ ValidUTF8 [0xED, 0xBF, 0xBF] = false ∧
+    ValidUTF8 [0xF4, 0x90, 0x80, 0x80] = false ∧ ValidUTF8 [0xF5, 0x80, 0x80, 0x80] = false ∧ ValidUTF8 [0x80] = false ∧
+    ValidUTF8 [0xE2, 0x82] = false ∧ ValidUTF8 [0xFF] = false ∧
+    ValidUTF8 [0x7F] = true ∧ ValidUTF8 [0xC2, 0x80] = true ∧ ValidUTF8 [0xDF, 0xBF] = true ∧ ValidUTF8 [0xE0, 0xA0, 0x80] = true ∧
+    ValidUTF8 [0xED, 0x9F, 0xBF] = true ∧ ValidUTF8 [0xEE, 0x80, 0x80] = true ∧ ValidUTF8 [0xEF, 0xBF, 0xBF] = true ∧
+    ValidUTF8 [0xF0, 0x90, 0x80, 0x80] = true ∧ ValidUTF8 [0xF4, 0x8F, 0xBF, 0xBF] = true := by decide
+
+/-- `ToValidUTF8` on the shapes that matter at the cut: a run of invalid bytes becomes ONE U+FFFD, a truncated
+    rune before ASCII is replaced, a literal U+FFFD is kept, valid text is untouched. -/
+theorem C13_toValidUTF8_examples :
+    toValidUTF8 [97, 0xFF, 0xFE, 98] = [97, 0xEF, 0xBF, 0xBD, 98] ∧
+    toValidUTF8 [0xE2, 0x82, 97] = [0xEF, 0xBF, 0xBD, 97] ∧
+    toValidUTF8 [0xEF, 0xBF, 0xBD, 0x80] = [0xEF, 0xBF, 0xBD, 0xEF, 0xBF, 0xBD] ∧
+    toValidUTF8 [0xC3, 0xA9, 0xE4, 0xB8, 0x96, 0xF0, 0x9F, 0x98, 0x80] = [0xC3, 0xA9, 0xE4, 0xB8, 0x96, 0xF0, 0x9F, 0x98, 0x80] ∧
+    toValidUTF8 [0xED, 0xA0, 0x80] = [0xEF, 0xBF, 0xBD] := by decide
 
 /-- The cut never splits a rune: a shortened reason ends right before a byte that starts a rune. -/
 theorem C13_close_reason_rune_boundary (r : Bytes) (h : 123 < r.length) :
@@ -275,7 +323,7 @@ theorem C13_close_reason_rune_boundary (r : Bytes) (h : 123 < r.length) :
   unfold closeReason maxCloseReasonLen
   simp [Nat.not_le.2 h]
 
-set_option maxRecDepth 8000 in
+set_option maxRecDepth 100000 in
 /-- What the fix removed: handing the reason to gws unmodified cuts "…é" after the first byte of
     the `é`, leaving an invalid UTF-8 close payload that clients answer with a protocol error.
     Witness: status Aborted with message 108×'a' ++ "é". -/
@@ -414,4 +462,359 @@ theorem C13_entry_points_m6_fails :
     (entryBind (wiredTranscoderM6 opts) .http r).toOption.map (·.respM.binary) = some true ∧
     (entryBind (wiredTranscoderM6 opts) .ws r).toOption.map (·.respM.binary) = some false ∧
     (entryBind (wiredTranscoder opts) .ws r).toOption.map (·.respM.binary) = some true := by
+  decide
+
+/-! ## ===== round 5 (deepening): chunk-boundary safety =====
+
+  An HTTP client never sees "the body": it sees whatever `Read` returns, cut at arbitrary places. The
+  theorems below say that the cut points are irrelevant, that reading more never revises what was already
+  surfaced, and that a record is surfaced only once its terminator has arrived — so at every moment the
+  records a client holds are a prefix of the messages sent, and at the end they are exactly the messages.
+  Preconditions on the payload bytes are the same as for `C13_lines` / `C13_sse` (necessary:
+  `C13_lines_fails_on_raw_newline`, `C13_chunk_witness_raw_newline`; discharged for compact JSON bodies by
+  `C13_json_lines_lossless` / `C13_sse_lossless` through the C09 renderer). -/
+
+/-- Chunking is irrelevant (NDJSON): an incremental reader fed any sequence of chunks holds exactly the
+    records of the concatenation. No hypothesis on the bytes. -/
+theorem C13_chunked_lines (chunks : List Bytes) : readLinesChunked chunks = splitLines chunks.flatten := by
+  unfold readLinesChunked
+  rw [foldl_chunks lineByte chunks, lineFold_recs]
+  rfl
+
+/-- Chunking is irrelevant (SSE). -/
+theorem C13_chunked_sse (chunks : List Bytes) : readSSEChunked chunks = parseSSE chunks.flatten := by
+  unfold readSSEChunked parseSSE
+  rw [foldl_chunks sseByte chunks]
+
+/-- Reading more bytes only appends records (both readers, every byte string): nothing already surfaced
+    is ever withdrawn or changed. -/
+theorem C13_readers_monotone (a b : Bytes) :
+    splitLines a <+: splitLines (a ++ b) ∧ parseSSE a <+: parseSSE (a ++ b) :=
+  ⟨by rw [splitLines_append]; exact List.prefix_append _ _, parseSSE_append a b⟩
+
+/-- Every prefix of an NDJSON stream body parses to a prefix of the messages: no partial record is ever
+    surfaced, whatever `k` bytes have arrived. -/
+theorem C13_lines_prefix_safe (bs : List Bytes) (h : ∀ b ∈ bs, LF ∉ b) (k : Nat) :
+    splitLines ((streamBody false bs).take k) <+: bs := by
+  have hm := (C13_readers_monotone ((streamBody false bs).take k) ((streamBody false bs).drop k)).1
+  rw [List.take_append_drop, C13_lines bs h] at hm
+  exact hm
+
+/-- Every prefix of an SSE stream body parses to a prefix of the messages. -/
+theorem C13_sse_prefix_safe (bs : List Bytes) (h : ∀ b ∈ bs, LF ∉ b ∧ CR ∉ b ∧ b.head? ≠ some SP) (k : Nat) :
+    parseSSE ((streamBody true bs).take k) <+: bs := by
+  have hm := (C13_readers_monotone ((streamBody true bs).take k) ((streamBody true bs).drop k)).2
+  rw [List.take_append_drop, C13_sse bs h] at hm
+  exact hm
+
+/-- Exactly the complete records: after `bs₁` whole records and any part `p` of the next one short of its
+    line feed, the client holds `bs₁` — the partial record is withheld, the complete ones are all there. -/
+theorem C13_lines_partial_withheld (bs₁ : List Bytes) (p : Bytes) (h : ∀ b ∈ bs₁, LF ∉ b) (hp : LF ∉ p) :
+    splitLines (streamBody false bs₁ ++ p) = bs₁ := by
+  rw [splitLines_append, C13_lines bs₁ h, lineRest_streamBody bs₁ h,
+    splitLinesAux_noLF p [] (fun x hx e => hp (e ▸ hx))]
+  simp
+
+/-- The same for SSE: after whole events `bs₁` and any part `p` of the next event short of its final blank
+    line (`p` a prefix of `data:<payload>\n`), the client has dispatched exactly `bs₁`. -/
+theorem C13_sse_partial_withheld (bs₁ : List Bytes) (b p : Bytes)
+    (h : ∀ b ∈ bs₁, LF ∉ b ∧ CR ∉ b ∧ b.head? ≠ some SP) (hb : LF ∉ b ∧ CR ∉ b ∧ b.head? ≠ some SP)
+    (hp : p <+: dataPrefix ++ b ++ [LF]) :
+    parseSSE (streamBody true bs₁ ++ p) = bs₁ := by
+  unfold parseSSE
+  have h0 : sseInit = cleanSt [] := rfl
+  rw [List.foldl_append, h0,
+    sse_stream bs₁ [] (fun b hb => ⟨fun x hx => ⟨fun e => (h b hb).1 (e ▸ hx), fun e => (h b hb).2.1 (e ▸ hx)⟩, (h b hb).2.2⟩),
+    sse_partial_event b p _ (fun x hx => ⟨fun e => hb.1 (e ▸ hx), fun e => hb.2.1 (e ▸ hx)⟩) hb.2.2 hp]
+  simp
+
+/-- The client's view, end to end: the network delivers the stream body in arbitrary chunks; after every
+    number `j` of chunks the records held are a prefix of the messages, and after the last chunk they are
+    exactly the messages — for NDJSON and for SSE. -/
+theorem C13_chunked_stream (sse : Bool) (bs : List Bytes)
+    (h : ∀ b ∈ bs, LF ∉ b ∧ (sse = true → CR ∉ b ∧ b.head? ≠ some SP))
+    (chunks : List Bytes) (hc : chunks.flatten = streamBody sse bs) (j : Nat) :
+    (if sse then readSSEChunked (chunks.take j) else readLinesChunked (chunks.take j)) <+: bs ∧
+    (if sse then readSSEChunked chunks else readLinesChunked chunks) = bs := by
+  have hsplit : (chunks.take j).flatten ++ (chunks.drop j).flatten = streamBody sse bs := by
+    rw [← List.flatten_append, List.take_append_drop, hc]
+  cases sse with
+  | false =>
+    have hl : ∀ b ∈ bs, LF ∉ b := fun b hb => (h b hb).1
+    simp only [Bool.false_eq_true, ↓reduceIte, C13_chunked_lines]
+    refine ⟨?_, by rw [hc]; exact C13_lines bs hl⟩
+    have hm := (C13_readers_monotone (chunks.take j).flatten (chunks.drop j).flatten).1
+    rw [hsplit, C13_lines bs hl] at hm
+    exact hm
+  | true =>
+    have hl : ∀ b ∈ bs, LF ∉ b ∧ CR ∉ b ∧ b.head? ≠ some SP := fun b hb => ⟨(h b hb).1, (h b hb).2 rfl⟩
+    simp only [↓reduceIte, C13_chunked_sse]
+    refine ⟨?_, by rw [hc]; exact C13_sse bs hl⟩
+    have hm := (C13_readers_monotone (chunks.take j).flatten (chunks.drop j).flatten).2
+    rw [hsplit, C13_sse bs hl] at hm
+    exact hm
+
+/-- Without the precondition the prefix property itself fails: with the D23 payload `[\n]` a client that has
+    received 2 bytes holds the record `[`, which is not a prefix of the messages sent (kernel-checked). -/
+theorem C13_chunk_witness_raw_newline :
+    splitLines ((streamBody false [[91, 10, 93]]).take 2) = [[91]] ∧ ¬ ([[91]] <+: [([91, 10, 93] : Bytes)]) ∧
+    readLinesChunked [[91], [10, 93], [10]] = [[91], [93]] := by
+  refine ⟨by decide, ?_, by decide⟩
+  intro hp
+  obtain ⟨t, ht⟩ := hp
+  simp at ht
+
+example : readLinesChunked [[123], [125, 10, 91], [93], [10]] = [[123, 125], [91, 93]] := by decide
+example : readSSEChunked [[100, 97], [116, 97, 58, 120, 10], [10, 100]] = [[120]] := by decide
+
+/-! ## ===== round 5 (deepening): progress of the gwsStream hand-off — `ServeHTTP`'s epilogue is reached =====
+
+  Threads: the handler (`Forward` … `closeGracefully` … `close(done)` … `wg.Wait()`), the forwarder inside
+  `Forward` (calls `Recv`), the read-loop goroutine (`ReadLoop` → `OnMessage` → `select { events <- ev; <-done }`,
+  `defer cancel()`). ENVIRONMENT ASSUMPTIONS (all in `internalAt` / `isEnv`, Model.lean): the forwarder calls
+  `Recv` in a loop for client streaming and once otherwise, and `Forward` returns when no `Recv` is in
+  progress (`closeDone`; ProxyForwarder, C01/C02); after the close frame the read deadline `wsCloseTimeout`
+  makes `ReadLoop` return (`readerExit` is internal once `done`); writes to the client (`Send`,
+  `closeGracefully`) are bounded by the same deadline and are not part of this LTS. -/
+
+/-- Deadlock freedom over ALL reachable states (every interleaving of client writes, read loop, `Recv`,
+    cancellation, close): while `ServeHTTP` has not returned, some move that needs nobody outside the bridge is
+    enabled — or the call is in the one legitimate waiting state, `Recv` waiting for a frame of a silent,
+    still connected client with an idle read loop (`awaitingClient`), from which the client can always move. -/
+theorem C13_ws_no_deadlock (cfg : Cfg) (s : St) (h : GB.LTS.Reachable (step cfg) init s) (hr : returned s = false) :
+    (∃ l, internalAt s l = true ∧ (step cfg s l).isSome = true) ∨ awaitingClient s = true :=
+  no_deadlock cfg s h hr
+
+/-- The variant: every move except the environment's (`clientSend`, `cancel`) strictly decreases `rank` —
+    from any state at most `rank s` moves can happen without new input: no livelock, no unbounded
+    `Recv`/`OnMessage` ping-pong. (No reachability needed.) -/
+theorem C13_ws_rank_decreases (cfg : Cfg) (s : St) (l : Lbl) (s' : St) (hl : isEnv l = false)
+    (hs : step cfg s l = some s') : rank s' < rank s :=
+  rank_decreases cfg s l s' hl hs
+
+/-- The epilogue is reached. From any reachable state, let the bridge run under ANY scheduler without further
+    client input until nothing internal is enabled (`ls` is such a maximal run): it takes at most `rank s`
+    moves and ends either with `ServeHTTP` returned or waiting for the client; and if the call was cancelled
+    (the client closed or dropped the socket — `readerExit` cancels — or the request context ended) it ends
+    with `ServeHTTP` returned. -/
+theorem C13_ws_epilogue_reached (cfg : Cfg) (s s' : St) (ls : List Lbl)
+    (h : GB.LTS.Reachable (step cfg) init s) (hrun : GB.LTS.run (step cfg) s ls = some s')
+    (hint : ∀ l ∈ ls, isEnv l = false)
+    (hmax : ∀ l, internalAt s' l = true → step cfg s' l = none) :
+    ls.length ≤ rank s ∧ (returned s' = true ∨ awaitingClient s' = true) ∧
+    (s'.cancelled = true → returned s' = true) := by
+  have hb := run_bounded cfg ls s s' hrun hint
+  have hreach := GB.LTS.run_reachable (step cfg) init s ls h hrun
+  have hfin : returned s' = true ∨ awaitingClient s' = true := by
+    cases hr : returned s' with
+    | true => exact Or.inl rfl
+    | false =>
+      rcases no_deadlock cfg s' hreach hr with ⟨l, hl, hen⟩ | hw
+      · rw [hmax l hl] at hen; simp at hen
+      · exact Or.inr hw
+  refine ⟨by omega, hfin, ?_⟩
+  intro hc
+  rcases hfin with hr | hw
+  · exact hr
+  · simp [awaitingClient, hc] at hw
+
+/-- Once the handler has closed `done`, nothing waits for the client any more: every maximal internal run ends
+    with `ServeHTTP` returned (in at most `rank s` moves). -/
+theorem C13_ws_epilogue_after_done (cfg : Cfg) (s s' : St) (ls : List Lbl)
+    (h : GB.LTS.Reachable (step cfg) init s) (hd : s.done = true)
+    (hrun : GB.LTS.run (step cfg) s ls = some s') (hint : ∀ l ∈ ls, isEnv l = false)
+    (hmax : ∀ l, internalAt s' l = true → step cfg s' l = none) :
+    returned s' = true ∧ ls.length ≤ rank s := by
+  obtain ⟨hlen, hfin, _⟩ := C13_ws_epilogue_reached cfg s s' ls h hrun hint hmax
+  refine ⟨?_, hlen⟩
+  rcases hfin with hr | hw
+  · exact hr
+  · -- `done` is never reset
+    have hmono : ∀ (ls : List Lbl) (a b : St), GB.LTS.run (step cfg) a ls = some b → a.done = true → b.done = true := by
+      intro ls
+      induction ls with
+      | nil => intro a b hab; simp [GB.LTS.run] at hab; subst hab; exact id
+      | cons l rest ih =>
+        intro a b hab ha
+        simp only [GB.LTS.run] at hab
+        cases hs : step cfg a l with
+        | none => simp [hs] at hab
+        | some a1 =>
+          rw [hs] at hab
+          refine ih a1 b hab ?_
+          cases l <;> simp only [step] at hs
+          all_goals (repeat' (split at hs))
+          all_goals (first | (cases hs; simp_all) | simp_all)
+    have := hmono ls s s' hrun hd
+    simp [awaitingClient, this] at hw
+
+/-- Non-vacuity: a client-streaming call in which the target ends the stream while a second frame is being
+    offered — `Forward` returns, `close(done)` releases `OnMessage`, the read loop ends, `ServeHTTP` returns;
+    the run is maximal (nothing internal is enabled at its end). -/
+theorem C13_ws_epilogue_example :
+    let cfg : Cfg := { cs := true, body := true, expectBinary := false }
+    let f1 : Frame := { binary := false, malformed := false, text := [1] }
+    let f2 : Frame := { binary := false, malformed := false, text := [2] }
+    ((GB.LTS.run (step cfg) init [.clientSend f1, .clientSend f2, .recvCall, .read, .handoff, .finishOnMessage, .read,
+        .closeDone, .onDone, .finishOnMessage, .readerExit]).map
+      (fun s => (returned s, s.delivered, rank s,
+        [Lbl.read, .handoff, .onDone, .finishOnMessage, .recvCall, .recvClosed, .recvCtx, .closeDone, .readerExit].all
+          (fun l => (step cfg s l).isNone)))) = some (true, [f1], 2, true) := by
+  decide
+
+/-- …and the waiting state is real: with a silent client the call stands in `awaitingClient` (nothing internal
+    enabled), and the client closing the socket leads to `Recv` returning the context error. -/
+theorem C13_ws_awaiting_client_example :
+    let cfg : Cfg := { cs := true, body := true, expectBinary := false }
+    ((GB.LTS.run (step cfg) init [.recvCall]).map (fun s => (awaitingClient s,
+        [Lbl.read, .handoff, .onDone, .finishOnMessage, .recvCall, .recvClosed, .recvCtx, .closeDone].all (fun l => (step cfg s l).isNone)))
+      = some (true, true)) ∧
+    ((GB.LTS.run (step cfg) init [.recvCall, .readerExit, .recvCtx, .closeDone]).map (fun s => (returned s, s.result))
+      = some (true, some .ctx)) := by
+  decide
+
+/-! ## ===== round 5 (deepening): flush per message =====
+
+  A server-streaming client must see message i before message i+1 is even produced. The model of the response
+  loop (`streamTrace`: target `Recv` i → one `Write` of the framed record → `Flush`) is tied to the code by the
+  regenerated facts `httpStreamSendShape` / `streamEncoderWrites` (`C13_facts_flush`) and by the observed
+  event trace of every HTTP case (recording ResponseWriter + target log, compared event for event). -/
+
+/-- At the moment the target is asked for message `i` (and at the end of the stream), everything written so
+    far has been flushed: the client can see exactly the first `i` records, nothing is held back in the
+    server's buffer — for every number of messages and every payload. -/
+theorem C13_flush_visible_before_next (sse : Bool) (ps : List Bytes) (i : Nat) (hi : i ≤ ps.length) :
+    ∃ post, streamTrace sse ps = streamTrace sse (ps.take i) ++ post ∧
+      (i < ps.length → post.head? = some (.targetRecv i)) ∧ (i = ps.length → post = []) ∧
+      wireRun (streamTrace sse (ps.take i)) = { buffered := [], visible := streamBody sse (ps.take i) } := by
+  refine ⟨streamTraceFrom (sendEvents sse) i (ps.drop i), ?_, ?_, ?_, ?_⟩
+  · have h := streamTraceFrom_append (sendEvents sse) 0 (ps.take i) (ps.drop i)
+    rw [List.take_append_drop, List.length_take, Nat.min_eq_left hi, Nat.zero_add] at h
+    exact h
+  · intro hlt
+    cases hd : ps.drop i with
+    | nil => have := congrArg List.length hd; simp at this; omega
+    | cons p rest => simp [streamTraceFrom]
+  · intro he
+    rw [he, List.drop_length]
+    rfl
+  · unfold wireRun streamTrace
+    rw [wire_streamTraceFrom]
+    simp
+
+/-- …so what the client has parsed by then is exactly the first `i` messages (NDJSON and SSE). -/
+theorem C13_flush_client_sees_before_next (sse : Bool) (ps : List Bytes) (i : Nat)
+    (h : ∀ b ∈ ps, LF ∉ b ∧ (sse = true → CR ∉ b ∧ b.head? ≠ some SP)) :
+    (if sse then parseSSE (wireRun (streamTrace sse (ps.take i))).visible
+     else splitLines (wireRun (streamTrace sse (ps.take i))).visible) = ps.take i := by
+  have hw : wireRun (streamTrace sse (ps.take i)) = { buffered := [], visible := streamBody sse (ps.take i) } := by
+    unfold wireRun streamTrace
+    rw [wire_streamTraceFrom]
+    simp
+  rw [hw]
+  have hsub : ∀ b ∈ ps.take i, b ∈ ps := fun b hb => List.mem_of_mem_take hb
+  cases sse with
+  | false => exact C13_lines _ (fun b hb => (h b (hsub b hb)).1)
+  | true => exact C13_sse _ (fun b hb => ⟨(h b (hsub b hb)).1, (h b (hsub b hb)).2 rfl⟩)
+
+/-- The discipline the driver demands of every observed trace holds for the model's loop. -/
+theorem C13_flush_discipline (sse : Bool) (ps : List Bytes) : flushedBeforeRecv false (streamTrace sse ps) = true :=
+  flushed_streamTraceFrom sse 0 ps
+
+/-- Without the flush (seeded variant M2) the client sees nothing when the second message is produced. -/
+theorem C13_flush_missing_witness :
+    let tr := streamTraceFrom (sendEventsNoFlush false) 0 [[97], [98]]
+    flushedBeforeRecv false tr = false ∧ (wireRun (tr.take 2)).visible = [] ∧ (wireRun (tr.take 2)).buffered = [97, 10] := by
+  decide
+
+/-- Facts tie (regenerated from webbridge/http.go, transcoding/json.go, transcoding/http.go on every run): in
+    `httpStream.send` the statement after `respstream.Transcode(msg)` is `s.flusher.Flush()`; `jsonEncoder.Encode`
+    performs exactly one `Write(append(b, jsonDelimiter))` with `jsonDelimiter = '\n'` (= `jsonLine`),
+    `sseResponseStream.Transcode` exactly one `Write(slices.Concat("data:", b, "\n\n"))` (= `sseEvent`): one
+    `Write` per record, one `Flush` per `Write` — the shape `sendEvents` models. A removed or moved `Flush`, a
+    second `Write`, a changed delimiter break this theorem. -/
+theorem C13_facts_flush :
+    flushFollowsTranscode GB.Generated.httpStreamSendShape = true ∧
+    encoderWritesOK GB.Generated.streamEncoderWrites GB.Generated.jsonDelimiterLit = true := by decide
+
+/-! ## ===== round 5: where record framing is applied (seeded C13-m10) =====
+
+  The WebSocket handshake's headers go through the same `Bind` as an HTTP request, so a handshake with
+  `Accept: text/event-stream` on a server-streaming method binds the response transcoder as SSE. That must not
+  show in the frames: `gwsStream.send` builds each message from the per-message `Transcode`, which returns the
+  marshaler's bare document for every binding; `data:…\n\n` is written by `sseResponseStream.Transcode` only. -/
+
+/-- WebSocket messages do not depend on the SSE flag of the binding: one message per response, payload = the
+    marshaler's document, opcode = the response marshaler's binary flag — the same frames as for the binding
+    with `isSSE` cleared; while over HTTP the same binding streams `data:` events. -/
+theorem C13_ws_frames_independent_of_sse (b : Bound) (ps : List Bytes) :
+    (wsFrames transcodeMsg b ps).map (·.payload) = ps ∧
+    wsFrames transcodeMsg b ps = wsFrames transcodeMsg { b with isSSE := false } ps ∧
+    wsFrames transcodeMsg b ps = wsOut b.respM.binary ps ∧
+    httpStreamBody b ps = streamBody b.isSSE ps := by
+  refine ⟨?_, rfl, rfl, ?_⟩
+  · simp [wsFrames, wsSend, transcodeMsg, Function.comp_def]
+  · have h : transcodeMsg b = id := rfl
+    unfold httpStreamBody
+    rw [h, List.map_id]
+
+/-- The seeded variant C13-m10 (framing inside the per-message `Transcode` of an SSE-bound transcoder): the
+    HTTP SSE body is byte-identical for EVERY binding and message list — which is why the repository's own SSE
+    tests cannot see it — but an SSE-bound WebSocket call sends `data:{}\n\n` instead of `{}`. -/
+theorem C13_ws_frames_m10_fails :
+    (∀ (b : Bound) (ps : List Bytes), httpStreamBodyM10 b ps = httpStreamBody b ps) ∧
+    (let b : Bound := { reqM := jsonMarshaler, respM := jsonMarshaler, isSSE := true }
+     (wsFrames transcodeMsgM10 b [[123, 125]]).map (·.payload) = [[100, 97, 116, 97, 58, 123, 125, 10, 10]] ∧
+     (wsFrames transcodeMsg b [[123, 125]]).map (·.payload) = [[123, 125]]) := by
+  refine ⟨?_, by decide⟩
+  intro b ps
+  cases hb : b.isSSE <;>
+    simp [httpStreamBodyM10, httpStreamBody, streamBody, transcodeMsgM10, transcodeMsg, sseEvent, hb, List.flatMap_map]
+
+/-- Facts tie: the per-message `standardResponseTranscoder.Transcode` neither reads `isSSE` nor contains a framing
+    literal (regenerated from transcoding/http.go on every run; together with `C13_facts_flush`: the `data:` wrapping
+    sits in `sseResponseStream.Transcode`'s single `Write`). Every `bind` case of the run also compares the real
+    `Transcode` output of the bound transcoder with the marshaler's bare document. -/
+theorem C13_facts_framing_site : GB.Generated.responseTranscodeFramingMentions = [] := by decide
+
+/-! ## ===== round 5: `strings.ToValidUTF8` on valid input ===== -/
+
+/-- `strings.ToValidUTF8` leaves valid UTF-8 untouched (so for well-formed status messages `closeReason` is the
+    cut alone — the model of the earlier rounds). -/
+theorem C13_toValidUTF8_id (s : Bytes) (h : ValidUTF8 s = true) : toValidUTF8 s = s := toValidUTF8_id s h
+
+/-- `ToValidUTF8` is idempotent. -/
+theorem C13_toValidUTF8_idem (s : Bytes) : toValidUTF8 (toValidUTF8 s) = toValidUTF8 s :=
+  toValidUTF8_id _ (toValidUTF8_valid s)
+
+/-- For a status message that is valid UTF-8 the close reason is a prefix of the reason itself,
+    `code <gRPC code>: <message>`, and the whole of it when that fits into 123 bytes. -/
+theorem C13_close_error_valid_message (c : Nat) (m : Bytes) (hc : c < 2 ^ 32) (hm : ValidUTF8 m = true) :
+    (closeFrame (.status c m)).2 <+: reasonPrefix c ++ m ∧
+    ((reasonPrefix c ++ m).length ≤ 123 → (closeFrame (.status c m)).2 = reasonPrefix c ++ m) := by
+  have h := (C13_close_error c m hc).2.2.2.2.2.1
+  rw [toValidUTF8_id m hm] at h
+  refine ⟨h, ?_⟩
+  intro hlen
+  rw [closeFrame_reason]
+  simp only [websocketError]
+  unfold closeReasonWhole
+  rw [toValidUTF8_ascii_prefix _ _ (reasonPrefix_ascii c hc), toValidUTF8_id m hm]
+  unfold closeReason maxCloseReasonLen
+  rw [if_pos hlen]
+
+/-- Facts tie for the hand-off LTS (regenerated from webbridge/websocket.go on every run): `OnMessage` blocks in
+    `select { stream.events <- event; <-stream.done }` (labels `handoff` / `onDone`), `Recv` in
+    `select { <-s.events; <-ctx.Done() }` (`handoff` / `recvClosed` / `recvCtx`), `close(stream.events)` is guarded by
+    `!ClientStreaming` (`finishOnMessage`), the goroutine running `ReadLoop` defers `cancel()` and `wg.Done()`
+    (`readerExit` cancels and releases `wg.Wait()`), and the handler closes `done` before `wg.Wait()` (`closeDone`
+    precedes the wait; fact shared with C02). A select that loses its `done` case, a dropped `defer cancel()`, a
+    reordered epilogue break this theorem — they are exactly what `C13_ws_no_deadlock` rests on. -/
+theorem C13_facts_handoff_shape :
+    GB.Generated.gwsSelectShape =
+      [("gwsHandler.OnMessage", ["stream.events<-event", "<-stream.done"]),
+       ("gwsStream.Recv", ["ev,ok:=<-s.events", "<-ctx.Done()"])] ∧
+    GB.Generated.gwsReaderDefers = ["wg.Done()", "cancel()"] ∧
+    GB.Generated.gwsEventsCloseGuard = ["!stream.req.route.Method.ClientStreaming"] ∧
+    (GB.Generated.wsEpilogueOrder.find? (·.1 == "TranscodedWebSocketBridge.ServeHTTP")).map (·.2) = some ["closeDone", "wgWait"] := by
   decide
